@@ -293,8 +293,9 @@ theorem supLeC_zip (re im : LP ℚ) (hre : re.WF) (him : im.WF)
   rw [← zipCQ_spec re im hre him hpar cs lo h θ]
   exact supLeC_sound cs lo B depth hs _ (norm_circ θ)
 
-/-- Soundness of `validCplx`.  The hypotheses `hzre hzim hpar` (both operands non-zero-flagged and
-    on powers of the same parity) cannot be dropped: see the examples below. -/
+/-- Soundness of `validCplx`.  The hypotheses `hzre hzim hpar`: both operands non-zero-flagged and
+    on powers of the same parity.  `hpar` cannot be dropped (second example below); the former
+    counterexample for the zero flags is rejected since `0 + 0` keeps its flag (first example). -/
 theorem validCplx_sound (fre fim : LP ℚ) (hre : fre.WF) (him : fim.WF)
     (hzre : fre.iszero = false) (hzim : fim.iszero = false) (hpar : fre.parity = fim.parity)
     (E : ℚ) (tre tim : List ℚ) (budget : ℚ) (depth : ℕ) (v : VOut)
@@ -366,13 +367,14 @@ theorem validCplx_sound (fre fim : LP ℚ) (hre : fre.WF) (him : fim.WF)
     push_cast at n4
     linarith
 
-/-- the zero-flag hypothesis of `validCplx_sound` cannot be dropped: `fre` the (well-formed)
-    zero polynomial stored with an odd lowest power, `fim = cos θ`, both targets empty; the
-    budget `3/5` is accepted although `|0 + i cos 0| = 1` -/
+/-- the former counterexample for the zero-flag hypothesis of `validCplx_sound`: `fre` the
+    (well-formed) zero polynomial stored with an odd lowest power, `fim = cos θ`, both targets
+    empty; `|0 + i cos 0| = 1` and the budget `3/5` was accepted while `0 + 0` lost the zero flag
+    (`LP.add`); it is rejected now -/
 example : (validCplx ⟨[0], 1, true⟩ (LP.mk' [1 / 2, 1 / 2] (-1)) 0 [] [] (3 / 5) 30).map (·.ok)
-    = .ok true := by decide +kernel
+    = .ok false := by decide +kernel
 
-/-- nor can the parity hypothesis: `fre = cos 2θ`, `fim = cos θ`, both targets empty; the budget
+/-- `hpar` (parity) cannot be dropped: `fre = cos 2θ`, `fim = cos θ`, both targets empty; the budget
     `13/10` is accepted although `|cos 0 + i cos 0| = √2 > 13/10` -/
 example : (validCplx (LP.mk' [1 / 2, 0, 1 / 2] (-2)) (LP.mk' [1 / 2, 1 / 2] (-1)) 0 [] []
     (13 / 10) 30).map (·.ok) = .ok true := by decide +kernel
